@@ -29,7 +29,7 @@ REAL_VS_STUB = {
 SIM_TIME = {
     'storesim': lambda st: f"{st.get('sim_clock_s', 0)} simulated seconds on the injected clock (every datetime.now() of taskchain.task advances it by 1 s)",
     'cachesim': lambda st: 'no clock in this engine (no timer or deadline in the code under test); history length is the measure: see simulated_ops',
-    'schedsim': lambda st: f"{st.get('steps', 0)} scheduling steps (the global event sequence number is the only clock; lock polls cost one step)",
+    'schedsim': lambda st: f"{st.get('steps', 0)} scheduling steps (global event sequence number) and {round(st.get('sim_s', 0))} simulated seconds on the clock that lock polls (time.sleep) and computations advance and lock deadlines (time.perf_counter / monotonic) read",
     'pmapsim': lambda st: 'no clock: progress is measured in gate releases (one per element and run)',
 }
 
